@@ -2,7 +2,7 @@
 
 Four fault explorations, each enumerating EVERY fault point of every scenario (single-fault bound, the pipe stays broken):
  1. the output stream raises BrokenPipeError from its k-th write on, k = 0..W (W measured on the fault-free run), text streams (every record is two
-    stream writes, so faults strike inside records) and utf-8 over a faulty raw stream; 14 query shapes x 7 tables (+ a long-record table);
+    stream writes, so faults strike inside records) and utf-8 over a faulty raw stream; 18 query shapes x 7 tables (+ a long-record table);
  2. an invalid byte (0xFF, lone continuation byte, truncation) at every position of 10 UTF-8 samples x chunk sizes 1..n+1 x compositions;
  3. file descriptors around query_csv for success, every parsing mistake of C14, a runtime error at every record, IO errors, unopenable files;
  4. a user writer whose write() returns False at its j-th call, j = 0..W: set_header at most once and first, no write after a False, finish exactly once.
@@ -78,11 +78,12 @@ def shapes():
         ('aggregated', 'select a1, count(*) group by a1', False), ('distinct', 'select distinct a1', False), ('distinct_count', 'select distinct count a1', False),
         ('unnest', "select a1, unnest(a2.split(';'))", False), ('join', 'select a1, b2 join b on a1 == b1', False), ('update', "update set a2 = 'u'", False),
         ('header', 'select a1, a2', True), ('header_sorted', 'select a2 order by a1', True), ('top', 'select top 3 a1', False), ('top_sorted', 'select top 2 a1 order by a2', False),
-        ('top_distinct', 'select distinct a1 limit 2', False),
+        ('top_distinct', 'select distinct a1 limit 2', False), ('top_aggregated', 'select a1, count(*) group by a1 limit 2', False), ('top_distinct_count', 'select top 1 distinct count a1', True),
+        ('top_unnest', "select top 4 a1, unnest(a2.split(';'))", False), ('top1_aggregated_header', 'select top 1 a1, count(*) group by a1', True),
     ]
 
 
-BUFFERING = ('sorted', 'aggregated', 'distinct_count', 'header_sorted', 'top_sorted')
+BUFFERING = ('sorted', 'aggregated', 'distinct_count', 'header_sorted', 'top_sorted', 'top_aggregated', 'top_distinct_count', 'top1_aggregated_header')
 BASE = [['k', 'p;q'], ['m', 'r'], ['k', 's;t'], ['n', 'u;v;w'], ['m', 'x'], ['k', 'p;q'], ['q', 'x'], ['n', 'y;z'], ['k', 'p;q']]
 JOINB = [['k', '1'], ['k', '2'], ['m', '3']]
 
@@ -410,7 +411,7 @@ def main(tier, seed):
     shards.append({'part': 'fd'})
     res = core.run_shards('vf.checks.c15', shards)
     return core.finish(PID, tier, seed, res, t0,
-        rule='single-fault exploration: the fault index ranges over every stream write (text and raw) / every writer call / every byte position of every scenario; 14 query shapes x prefixes 0..9 (and two infixes) of a 9-row table; '
+        rule='single-fault exploration: the fault index ranges over every stream write (text and raw) / every writer call / every byte position of every scenario; 18 query shapes x prefixes 0..9 (and two infixes) of a 9-row table; '
              'states = fault points, transitions = environment calls answered; non-trivial = the fault actually struck before the run ended',
         assumptions=['a broken pipe stays broken (no recovery)', 'validity of a mutated byte string is decided by CPython\'s strict utf-8 codec', 'descriptors are compared through /proc/self/fd after gc.collect()'],
         extra={'shapes': [s[0] for s in shapes()]},
